@@ -148,7 +148,8 @@ def run(F, R, tier):
              str([H.render(x) for x in adds]), F.loc(rf))
     if R.anchor("builtin_read", br):
         rname = H.last(rf["path"]) if rf else "read_from_file"
-        brb = H.body_inl(F, br, keep=(rname,))
+        # (normal form: a `with_input(handle, |input| ..)` helper applied to its closure reads as the match it performs)
+        brb = H.normal(F, H.body_of(br), keep=(rname,))
         # the count each read is given, traced to where it is computed; its value when there is no second argument
         lets_b = {x["pat"]["id"]: x["init"] for x in H.walk(brb) if x.get("k") == "let" and x.get("pat", {}).get("k") == "bind" and x.get("init") is not None}
         reads_ = [c for c in H.walk(brb) if c.get("k") == "call" and H.last(c.get("callee") or "") == rname]
@@ -176,7 +177,7 @@ def run(F, R, tier):
 
     def reader_borrows(g_):
         """locals bound to `<payload of FileHandle::Reader>.borrow_mut()` in g_"""
-        b_ = H.body_of(g_)
+        b_ = H.normal(F, H.body_of(g_), keep=("read_from_file",))
         payload = set()
         for m in H.walk(b_):
             if m.get("k") == "match" and not H.is_try(m):
@@ -238,6 +239,8 @@ def run(F, R, tier):
             # under conditions: all read the same way once the mode is fixed)
             for mode in list(WANT_MODES) + [OTHER]:
                 sb = H.specialise_value(bo_body, mode_id, mode)
+                # what the chosen arm fixed besides (`let (file, readable) = (File::open(path), true)`) decides later branches
+                sb = H.specialise_value(H.unlet(H.split_tuple_lets(sb)), None, None)
                 # only what runs after the mode was determined counts
                 g_ = built(sb)
                 if mode != OTHER or g_[0] or g_[1] != "?":
@@ -351,6 +354,7 @@ def run(F, R, tier):
         if R.anchor(fn, g):
             txt = H.render(H.body_of(g))
             pl_ = reader_borrows(g)[1]
-            through = any(x.get("k") == "mcall" and x["m"] == "borrow_mut" and H.local_id(H.strip(x["recv"])) in pl_ for x in H.walk(H.body_of(g)))
+            through = any(x.get("k") == "mcall" and x["m"] == "borrow_mut" and H.local_id(H.strip(x["recv"])) in pl_
+                          for x in H.walk(H.normal(F, H.body_of(g), keep=("read_from_file",))))
             ok = (bool(reader_borrows(g)[0]) or through) and "File::open" not in txt and "BufReader::new" not in txt
             R.ob("single-buffer-per-handle", "%s reads through the handle's BufReader" % fn, ok, "", F.loc(g), nontrivial=False)
